@@ -36,6 +36,9 @@ thread_local! {
     static LAST_PANIC: RefCell<Option<(String, String)>> = const { RefCell::new(None) };
 }
 
+/// Set by the single-run child commands (`journal`, `replay`): report every panic on stderr.
+pub static VERBOSE_PANICS: std::sync::atomic::AtomicBool = std::sync::atomic::AtomicBool::new(false);
+
 /// Install the panic hook: silent, remembers message and location per thread.
 pub fn install_panic_hook() {
     panic::set_hook(Box::new(|info| {
@@ -50,6 +53,11 @@ pub fn install_panic_hook() {
         } else {
             "<non-string panic>".to_string()
         };
+        if VERBOSE_PANICS.load(Ordering::Relaxed) || msg.starts_with("unsafe precondition") {
+            // the process is about to abort (e.g. a violated unsafe precondition under debug
+            // assertions): leave the reason behind for the supervising process
+            eprintln!("NONUNWIND-PANIC {} at {}", msg.replace('\n', " "), short_loc(&loc));
+        }
         LAST_PANIC.with(|p| *p.borrow_mut() = Some((loc, msg)));
     }));
 }
@@ -317,19 +325,32 @@ pub fn run_batch(scen: &dyn Scenario, cfg: &BatchCfg) -> BatchOut {
 /// illegal in the state they meet, so every candidate is a legal schedule.
 pub fn minimise(scen: &dyn Scenario, case: &Case, inv: &str, budget: usize) -> (Case, usize) {
     let mut obs = Observer::new();
-    let mut execs = 0usize;
-    let mut fails = |c: &Case, execs: &mut usize| -> Option<Case> {
-        *execs += 1;
+    let mut test = |c: &Case| -> Option<Case> {
         match exec_case(scen, c, &mut obs) {
             (Outcome::Violation(v), eff) if v.invariant == inv => Some(eff),
             _ => None,
         }
     };
+    minimise_with(scen.ops(), case, budget, &mut test)
+}
+
+/// The minimiser proper, over any "does this candidate still fail the same way (and what was
+/// really executed)" test — in-process execution, or a child process for runs that abort.
+pub fn minimise_with(
+    specs: &[OpSpec],
+    case: &Case,
+    budget: usize,
+    test: &mut dyn FnMut(&Case) -> Option<Case>,
+) -> (Case, usize) {
+    let mut execs = 0usize;
+    let mut fails = |c: &Case, execs: &mut usize| -> Option<Case> {
+        *execs += 1;
+        test(c)
+    };
     let mut cur = match fails(case, &mut execs) {
         Some(eff) => eff,
         None => return (case.clone(), execs),
     };
-    let specs = scen.ops();
     loop {
         let before = (cur.ops.len(), cur.cfg.clone(), cur.ops.clone());
         // 1. remove chunks of operations
